@@ -81,7 +81,12 @@ for o in allouts:
     r = o.get("results", {})
     tgt = r.get(o["property"], {})
     others = [c for c, v in r.items() if c != o["property"] and v["exit"] == 1]
-    row = f"| {o['name']} | {o['property']} | {'yes' if tgt.get('exit') == 1 else 'NO (exit %s)' % tgt.get('exit')} | {' '.join(others) or '-'} | {'; '.join(tgt.get('signatures', [])[:2])} |"
+    try:
+        oq = json.load(open(f"{V}/seeded/{o['name']}/meta.json")).get("outside_quantifier")
+    except Exception:
+        oq = None
+    verdict = 'yes' if tgt.get('exit') == 1 else ('n/a - outside the property\'s quantifier: ' + oq if oq else 'NO (exit %s)' % tgt.get('exit'))
+    row = f"| {o['name']} | {o['property']} | {verdict} | {' '.join(others) or '-'} | {'; '.join(tgt.get('signatures', [])[:2])} |"
     lines.append(row)
     if o["name"] in names:
         print(row)
